@@ -25,7 +25,7 @@ MAPPED = {"flat_map", "concat_map", "switch_map", "flat_map_latest"}
 INDEXED = {"flat_map_indexed", "switch_map_indexed"}
 
 MODEL_INVS = ["Grammar", "Released", "ActiveOpen", "Concurrency", "NoIdleSlot", "Causal", "RefOut", "RefSubs",
-              "ConcatOrdered"]
+              "ConcatOrdered", "OutVsSubs"]
 MODEL_PROPS = ["LatestOnly"]
 
 
@@ -259,10 +259,6 @@ def run_scenario(scn: Dict[str, Any], *, outer: str, profile: str, inner_first: 
     if outer_hot and any(ev["t"] == 0 for ev in outer):
         return None  # a hot event at the very subscription instant is a tie with subscribe(); the model has it delivered
     if resub and (outer_hot or fl == "hot"):
-        return None
-    if outer_kind == "sync" and scn.get("take"):
-        # the whole outer timeline at relative time 0 is emitted inside subscribe(), before anybody holds a handle on the
-        # subscription: a take() that completes in the middle of it cannot stop the rest (no operator can) - not compared
         return None
     off = RESUB_OFFSET if resub else 0
     ni = len(tab)
@@ -508,6 +504,7 @@ def witness(scn, exps, got) -> Dict[str, Any]:
                 extra += len(lst) - len(ev)
             after = after or (ok and extra > 0)
     w["subscribed_after_end"] = after
+    w["ended_at_subscription_instant"] = bool(got["out"]) and got["out"][-1][1] != "N" and got["out"][-1][0] == SUB_AT
     got_k = [x[1] for x in got["out"]]
     w["observed_terminal"] = got_k[-1] if got_k and got_k[-1] != "N" else "none"
     w["expected_terminals"] = sorted({(e["out"][-1][1] if e["out"] and e["out"][-1][1] != "N" else "none") for e in exps})
@@ -532,6 +529,12 @@ def judge(scn: Dict[str, Any], allowed: List[Dict[str, Any]], variant: Dict[str,
            "expected": allowed, "expected_decoded": exps[:4], "observed": got, "variant": variant,
            "has_fault": 0 in scn["fmap"], "disposed": scn["dsp"] != NEVER, "take": scn.get("take", 0)}
     rec.update(witness(scn, exps, got))
+    if variant.get("outer") == "sync" and rec["subscribed_after_end"] and rec["ended_at_subscription_instant"]:
+        # The sync outer source emits its whole time-0 timeline inside subscribe(), before anybody holds a handle on the
+        # subscription. When the result ends in the middle of that (an inner erroring at subscription, take(k)), the rest
+        # of the timeline still reaches the operator and is subscribed and dropped at once; no operator can prevent it.
+        # Harness-induced (DESIGN 3.5): tolerated for this variant only; the same scenario is also run with a cold outer.
+        return "tolerated"
     return rec
 
 
@@ -607,7 +610,9 @@ def _job(args):
         if f == "n/a":
             continue
         n += 1
-        if f:
+        if f == "tolerated":
+            fails.append("tolerated")
+        elif f:
             fails.append(f)
     return n, fails
 
@@ -616,11 +621,16 @@ def replay_groups(ck, groups, profiles=("plain",), procs=8):
     from harness import core
     jobs = [(scn, allowed, variants_for(scn, profiles)) for scn, allowed in groups]
     total = 0
+    tolerated = 0
     for n, fails in core.parallel_map(_job, jobs, procs=procs, chunk=100):
         total += n
         for f in fails:
-            ck.fail(f)
+            if f == "tolerated":
+                tolerated += 1
+            else:
+                ck.fail(f)
     ck.impl += total
+    ck.note("sync_outer_subscribed_after_end_tolerated", tolerated)
     return total
 
 
@@ -628,6 +638,49 @@ def deterministic_only(lines):
     """simulated behaviours: keep the scenarios in which no two lanes were ever due at the same instant (obs.amb = FALSE),
     i.e. whose single simulated outcome is the whole allowed set"""
     return [ln for ln in lines if not ln["obs"]["amb"]]
+
+
+def binding_selftest(ck, groups, n=25):
+    """The comparator must reject a corrupted observation: for a few scenarios the real observation is altered (last
+    notification dropped / an unsubscription instant moved / an element re-attributed) and must then be outside the
+    allowed set. A comparator that accepts one is a machinery failure."""
+    import copy
+    done = 0
+    for scn, allowed in groups:
+        if done >= n:
+            break
+        if not allowed[0]["out"] or not allowed[0]["subs"]:
+            continue
+        v = variants_for(scn)[-1] if scn["op"] == "merge_srcs" else dict(outer="cold", profile="plain")
+        got = run_scenario(scn, **v)
+        if got is None:
+            continue
+        exps = [expected(scn, o) for o in allowed]
+        if any(diff(e, got) is None for e in exps) is False:
+            continue  # a real failure: reported by the replay itself
+        muts = []
+        g1 = copy.deepcopy(got); g1["out"].pop(); muts.append(g1)
+        g2 = copy.deepcopy(got)
+        for lst in g2["subs"].values():
+            if lst:
+                lst[0][1] = lst[0][1] + 1 if lst[0][1] != NEVER_T else lst[0][0]
+                break
+        muts.append(g2)
+        g3 = copy.deepcopy(got)
+        for r in g3["out"]:
+            if r[1] == "N":
+                r[2] = [r[2][0], r[2][1] + 1]
+                break
+        else:
+            g3["out"].append([g3["out"][-1][0], "C", None])
+        muts.append(g3)
+        for m in muts:
+            if any(diff(e, m) is None for e in exps):
+                raise AssertionError(f"binding self-test: corrupted observation accepted for {json.dumps(scn)[:300]}")
+        done += 1
+    ck.note("binding_selftest_scenarios", done)
+    if done == 0:
+        raise AssertionError("binding self-test found no scenario to corrupt")
 
 
 def nontrivial(scn, allowed) -> bool:
@@ -645,5 +698,7 @@ def nontrivial(scn, allowed) -> bool:
 
 def generic_replay(rec) -> int:
     f = judge(rec["scn"], rec["expected"], rec["variant"])
+    if f == "tolerated":
+        f = None
     print(json.dumps(f, default=str)[:3000] if f else "replay: observation allowed by the spec")
     return 1 if f else 0
